@@ -310,6 +310,16 @@ func genSessions(c *lib.Ctx, rng *rand.Rand) []sessIn {
 		add(sessIn{Kind: "realtime", Asset: "testpic_2s", MPD: "Manifest.mpd", Cfg: cfgIn{Mode: "number", Snr: -1, Tsbd: -1}, Test: false, AlignMS: 2000, AlignOff: 300, Solo: true,
 			Events: []evIn{{Kind: "wait", WaitMS: 2000}, {Kind: "wait", WaitMS: 2000}, {Kind: "delete"}}})
 	}
+	// 10. successive sessions of the same user to the same receiver host with different passwords
+	//     (a rotated password), and one without credentials: each must carry its own
+	for i, pw := range []string{"first-pw", "second-pw", "", "third-pw"} {
+		s := sessIn{Kind: "same-user-same-host", Asset: "testpic_2s", MPD: "Manifest.mpd", Cfg: cfgIn{Mode: []string{"number", "tlt"}[i%2], Snr: -1, Tsbd: -1},
+			NowMS: 10000 + int64(i)*2000, Test: true, Group: "rotated-password", Events: steps(1), Streams: i == 1}
+		if pw != "" {
+			s.User, s.Pass = "ingest", pw
+		}
+		add(s)
+	}
 	// 9. DELETE while an init segment is being uploaded (the session is not yet "running"): it must
 	//    stop all the same: no later init, no step taken, no media segment
 	for i, hold := range []struct {
@@ -377,9 +387,18 @@ func playAll(c *lib.Ctx, sessions []sessIn) map[int]*played {
 	var batches [][]sessIn
 	var cur []sessIn
 	per := 14
+	groups := map[string][]sessIn{}
+	var groupOrder []string
 	for _, s := range sessions {
 		if s.Solo {
 			batches = append(batches, []sessIn{s})
+			continue
+		}
+		if s.Group != "" { // one process, one receiver host for the whole group
+			if _, ok := groups[s.Group]; !ok {
+				groupOrder = append(groupOrder, s.Group)
+			}
+			groups[s.Group] = append(groups[s.Group], s)
 			continue
 		}
 		cur = append(cur, s)
@@ -390,6 +409,9 @@ func playAll(c *lib.Ctx, sessions []sessIn) map[int]*played {
 	}
 	if len(cur) > 0 {
 		batches = append(batches, cur)
+	}
+	for _, g := range groupOrder {
+		batches = append(batches, groups[g])
 	}
 	// slow batches first
 	sort.SliceStable(batches, func(i, j int) bool { return batchCost(batches[i]) > batchCost(batches[j]) })
